@@ -128,10 +128,14 @@ PLANS["C04"] = c04_plan
 
 def c17_plan(ctx, tier):
     q = tier == "quick"
+    # measured: the full 41-call alphabet at three calls is > 1.5 M states of 7 KB each; three calls run over a reduced alphabet
     ctx.mc_replay("policy", "MC_Policy.tla", "MC_Policy.cfg", "fam_policy.json", ["C17"], replaycmd="replaypolicy",
-                  consts={"MaxLen": 2 if q else 3, "AlgDepth": 1 if q else 2}, timeout=3400)
+                  consts={"MaxLen": 2, "AlgDepth": 1 if q else 2}, timeout=3400)
+    if not q:
+        ctx.mc_replay("policy3", "MC_Policy.tla", "MC_Policy.cfg", "fam_policy3.json", ["C17"], replaycmd="replaypolicy",
+                      consts={"MaxLen": 3, "AlgDepth": 1}, timeout=3400)
     ctx.trace("policyfuzz", ["C17"], cmd=["policyfuzz", "-n", "150" if q else "3000"], timeout=3000)
-    return dict(rule=("TLC explores every history of <= MaxLen builder calls (37-call alphabet incl. case variants, toggles, helpers) on two policy "
+    return dict(rule=("TLC explores every history of <= 2 builder calls (41-call alphabet incl. case variants, toggles, helpers; thorough: also <= 3 calls over a 16-call alphabet) on two policy "
                       "instances from 4 constructor pairs and checks Commute, Idempotent, CaseBlind, SwitchLastWrite, RulesAccumulate, Independent; "
                       "each history is replayed on the real API: snapshot of each instance = predicted policy, the untouched instance's snapshot "
                       "never changes, an instance built next to another behaves like the same calls made alone, and all histories reaching the "
